@@ -102,6 +102,19 @@ func JudgeC01(c *Case, r *Result) string { return JudgeC01Kept(c, r, nil) }
 // result from the run being retried and are legitimately never executed.
 func JudgeC01Kept(c *Case, r *Result, kept map[string]bool) string {
 	an := Analyze(r.Trace)
+	// "has finished its last attempt": what a dependency looked like when the
+	// step was launched is what it looks like at the end of the run. (A
+	// dependency that is still to be retried — also one whose attempt leaves no
+	// executor event, because its set-up fails — shows up here.)
+	for _, ds := range r.DepSnaps {
+		f, ok := r.Final[ds.Dep]
+		if !ok {
+			continue
+		}
+		if f.Status != ds.Status || f.RetryCount != ds.RetryCount {
+			return fmt.Sprintf("step %q was launched (seq %d) when its dependency %q was %q with %d retries used; the dependency went on after that and ended %q with %d retries used: it had not finished its last attempt", ds.Step, ds.Seq, ds.Dep, ds.Status, ds.RetryCount, f.Status, f.RetryCount)
+		}
+	}
 	for _, s := range c.Steps {
 		st := an[s.Name]
 		if st == nil {
@@ -207,7 +220,7 @@ func Expect(c *Case, r *Result, s *StepSpec) Expected {
 	if e.Blocked {
 		return e
 	}
-	if s.Precond == 2 {
+	if s.PrecondUnmet() {
 		e.State = "skipped"
 		return e
 	}
